@@ -50,7 +50,7 @@ async def segment_fetcher(app: NDNApp, name: NonStrictName, timeout=4000, retry_
     # First Interest
     name, meta, content = await retry(True)
     # If it's not segmented
-    if Component.get_type(name[-1]) != Component.TYPE_SEGMENT:
+    if not name or Component.get_type(name[-1]) != Component.TYPE_SEGMENT:
         yield content
         return
     # If it's segmented
